@@ -178,6 +178,8 @@ def run(ctx):
         ds = " ".join(repr(x / 4.0 * 2.0 ** ea) for x in r["d"])
         cmds.append("legacyx %d 0 0 no 0 %d %s" % (r["n"], len(r["d"]), ds))
         cmds.append("legacyx %d 0 1 no 0 %d %s" % (r["n"], len(r["d"]), ds))
+        # empty arrays in the selection (filled before, then cleared) contribute nothing: same answer as the data alone
+        cmds.append("legacym %d 1 %d %r %d %s" % (r["n"], 1 + i % 2, 1000.0 if i % 4 < 2 else -1000.0, len(r["d"]), d))
         # a default-constructed object = an object constructed from default options
         cmds.append("legacyd %d %s" % (len(r["d"]), d))
         cmds.append("legacyx 101 0 1 no 0 %d %s" % (len(r["d"]), d))
@@ -196,8 +198,14 @@ def run(ctx):
         out = [o for k, o in enumerate(out) if k not in blank]
         had_reuse = not blank
         dflt, dflt_ref = out[-2], out[-1]
-        sraw, snrm = out[-4], out[-3]
-        out = out[:-4]
+        multi = out[-3]
+        sraw, snrm = out[-5], out[-4]
+        out = out[:-5]
+        if sc == "no" and multi[0] == "legacy" and len(out) > 1 and out[1][0] == "legacy" and multi[1:] != out[1][1:]:
+            ctx.violation("Histogram:selection:empty-array", "a selection with empty (cleared) arrays next to the data gives %s, the data alone %s"
+                          % (multi[1:6], out[1][1:6]), r)
+        elif multi[0] != "legacy":
+            ctx.violation("Histogram:selection:empty-array:exception", "selection with empty arrays failed on %s: %s" % (r, multi), r)
         if dflt[0] != "legacy":
             ctx.violation("Histogram:default-ctor:exception", "default-constructed legacy histogram failed on %s: %s" % (r, dflt), r)
         elif dflt[1:] != dflt_ref[1:]:
